@@ -236,6 +236,10 @@ def _lat_specs(tier, tag):
         sp.append(('%s-%s-hand' % (tag, conf), ['--conf', conf, '--gset', 'hand', '--syms', 'SIL,AH,G,OW,T,_', '--segs', '3', '--routes', 'api']))
         sp.append(('%s-%s-enum22' % (tag, conf), ['--conf', conf, '--gset', 'enum:2:2', '--words', 'a,go', '--syms', 'SIL,AH,G,OW,_', '--segs', '3',
                                                  '--routes', 'api,jsgf']))
+    # dense lattices: loop grammars over short words, beams open, 18 (thorough 21) frames: thousands of paths, the N-best agenda fills
+    sp.append(('%s-open-loop-dense' % tag, ['--conf', 'open', '--gset', 'loop', '--syms', 'AH,G,OW', '--segs', '6' if tier == 'quick' else '7', '--lens', '3',
+                                            '--routes', 'api', '--patterns', '1'], 2))
+    sp.append(('%s-open-nofiller-hand' % tag, ['--conf', 'open', '--filler', '0', '--gset', 'hand', '--syms', 'SIL,AH,G,OW,T,_', '--segs', '3', '--routes', 'api']))
     if tier == 'thorough':
         for conf in ('default', 'tight', 'open'):
             sp.append(('%s-%s-enum23' % (tag, conf), ['--conf', conf, '--gset', 'enum:2:3', '--words', 'a,go,no', '--syms', SYM3, '--segs', '2',
